@@ -55,6 +55,17 @@ def sample_archives(py7zr, R, tier):
                 z.close()
             raw = bio.getvalue()
             out.append((f"py7zr:{name}:{hdr}:{nsess}folders", raw, pw, regions_of(raw, pw)))
+    # ---- members whose CRC-32 is 0x00000000 / 0xFFFFFFFF (a defined CRC of 0 is not "no CRC"); stored, so only the CRC can notice
+    for k, (name, filt) in enumerate([("copy", [{"id": 0x33}]), ("lzma2", [{"id": 0x21, "preset": 1}])] if tier != "quick" else [("copy", [{"id": 0x33}])]):
+        bio = io.BytesIO()
+        z = py7zr.SevenZipFile(bio, "w", filters=filt)
+        z.set_encoded_header_mode(k % 2 == 1)
+        z.writestr(b"first member, ordinary", "c/a.txt")
+        z.writestr(forge_crc(b"member whose CRC-32 is zero ....", 0), "c/zero.bin")
+        z.writestr(forge_crc(b"and one with all ones", 0xFFFFFFFF), "c/ones.bin")
+        z.close()
+        raw = bio.getvalue()
+        out.append((f"py7zr:{name}:crc0:1folders", raw, None, regions_of(raw, None)))
     # ---- reference-written (fast key derivation, folder CRCs, packed CRCs, header CRC)
     refs = [("lzma2", "lzma", 2, "substream", True, None), ("copy", "raw", 1, "substream", False, None), ("bzip2", "lzma", 3, "substream", True, None),
             ("deflate", "raw", 2, "folder", False, None), ("lzma", "lzma", 4, "substream", False, None), ("copy", "aes", 2, "substream", True, "pw"),
@@ -73,6 +84,34 @@ def sample_archives(py7zr, R, tier):
                                       "packpos": 5 if k % 2 else 0})
         out.append((f"ref:{coder}:{hdr}:{nf}folders:crc={crc}:packcrc={packcrc}", raw, pw, regions))
     return out
+
+
+def forge_crc(prefix: bytes, target: int) -> bytes:
+    """prefix + 4 bytes such that zlib.crc32(result) == target"""
+    import zlib
+
+    table = []
+    for i in range(256):
+        c = i
+        for _ in range(8):
+            c = (c >> 1) ^ 0xEDB88320 if c & 1 else c >> 1
+        table.append(c)
+    rev = {t >> 24: i for i, t in enumerate(table)}
+    want = target ^ 0xFFFFFFFF
+    cur = zlib.crc32(prefix) ^ 0xFFFFFFFF
+    idxs, r = [], want
+    for _ in range(4):
+        i = rev[r >> 24]
+        idxs.append(i)
+        r = ((r ^ table[i]) << 8) & 0xFFFFFFFF
+    idxs.reverse()
+    tail, r = [], cur
+    for i in idxs:
+        tail.append((r ^ i) & 0xFF)
+        r = (r >> 8) ^ table[i]
+    res = prefix + bytes(tail)
+    assert zlib.crc32(res) == target, "forge failed"
+    return res
 
 
 def region_at(regions, pos):
@@ -138,9 +177,16 @@ def probe(case):
     from .common import import_py7zr
 
     py7zr = import_py7zr()
-    raw, password, names0, data0, targets = case
+    raw, password, names0, data0, targets = case[:5]
+    bypath = len(case) > 5 and case[5]        # opened by file name: multi-folder archives take the thread-parallel path
     outs = []
     t0 = time.time()
+    fname = None
+    if bypath:
+        import tempfile
+        fd, fname = tempfile.mkstemp(prefix="c04-", suffix=".7z", dir="/dev/shm" if os.path.isdir("/dev/shm") else None)
+        with os.fdopen(fd, "wb") as f:
+            f.write(raw)
 
     def judge(names, got):
         for n, d in got.items():
@@ -151,10 +197,12 @@ def probe(case):
     def run(path, fn):
         ev = {"e": "out", "path": path, "outcome": "same", "verdict": "none", "exc": ""}
         try:
-            with py7zr.SevenZipFile(io.BytesIO(raw), password=password) as z:
+            with py7zr.SevenZipFile(fname if bypath else io.BytesIO(raw), password=password) as z:
                 fn(z, ev)
         except BaseException as e:  # noqa
             if isinstance(e, (KeyboardInterrupt, SystemExit, MemoryError)):
+                if fname:
+                    os.unlink(fname)
                 raise
             ev["outcome"] = "error"
             ev["exc"] = type(e).__name__
@@ -188,6 +236,8 @@ def probe(case):
         v = z.testzip()
         ev["verdict"] = "good" if v is None else "bad"
     run("testzip", t_zip)
+    if fname:
+        os.unlink(fname)
     ru = resource.getrusage(resource.RUSAGE_SELF)
     return {"outs": outs, "wall": time.time() - t0, "maxrss_kb": ru.ru_maxrss}
 
